@@ -339,4 +339,177 @@ def strace (c : SCfg) : List SEv → SState → SState × List String
 
 def holders (s : SState) : Nat := (s.ths.filter (· == .holding)).length
 
+/-! #### The session clock under session requests (wave 6)
+
+`run_step` reads `session_state["step"]` at its start and writes the result and `step + dt` at its end — into
+whatever `session_state` is *at that moment*: a `begin-session` / restore in between hands it a fresh state.
+`epoch` numbers the session states; `log` is the results log as (epoch, time). -/
+structure CState where
+  base : SState
+  epoch : Nat
+  clock : Nat
+  log : List (Nat × Nat)
+  locs : List (Option Nat)        -- per request: the time read by a `run_step` that has not yet written
+deriving DecidableEq, Repr
+
+inductive CEv where
+  | sess (e : SEv) | rd (i : Nat) | wr (i : Nat)
+deriving DecidableEq, Repr
+
+def CState.init (session0 : Bool) (n : Nat) : CState :=
+  { base := SState.init session0 n, epoch := 0, clock := 0, log := [], locs := List.replicate n none }
+
+def cstep (c : SCfg) (s : CState) : CEv → CState
+  | .sess e =>
+      match e with
+      | .beginS | .restoreS =>
+          if c.sessionReqExcluded && s.base.flag then s
+          else { s with base := sstep c s.base e, epoch := s.epoch + 1, clock := 0 }
+      | _ => { s with base := sstep c s.base e }
+  | .rd i =>
+      if s.base.ths[i]? = some .holding ∧ s.locs[i]? = some none ∧ s.base.session = true then
+        { s with locs := s.locs.set i (some s.clock) }
+      else s
+  | .wr i =>
+      match s.base.ths[i]?, s.locs[i]? with
+      | some .holding, some (some l) =>
+          if s.base.session then { s with log := s.log ++ [(s.epoch, l)], clock := l + 1, locs := s.locs.set i none }
+          else { s with locs := s.locs.set i none }
+      | _, _ => s
+
+def crun (c : SCfg) (s : CState) (sched : List CEv) : CState := sched.foldl (cstep c) s
+
+/-- the times logged in session state number `e`, in the order they were written. -/
+def timesOf (e : Nat) (log : List (Nat × Nat)) : List Nat := (log.filter (fun p => p.1 == e)).map (·.2)
+
 end Bptk.C18.Sess
+
+/-! ### The generator protocol of the streamer (wave 6)
+
+A streaming request is a coroutine: it runs, suspends at a `yield`, and is finally exhausted or closed.  "The
+client goes away" is the WSGI server calling `close()` on the suspended generator: `GeneratorExit` is raised at
+the yield it is suspended at.  A handler may catch it (`except:` / `except BaseException` / `except
+GeneratorExit`); `finally` blocks run while it propagates.  If the generator then reaches another `yield`, Python
+raises `RuntimeError: generator ignored GeneratorExit` in the closer and the frame stays suspended at that yield —
+whatever comes after it (the `unlock()`) never runs, not on garbage collection either.
+
+The body of the generator is kept as a flat list of tokens with block markers (read off the real source with
+`ast` on every run); `closeAt` interprets `close()` at the yield with index `k`. -/
+namespace Bptk.C18.Gen
+
+inductive Tok where
+  | yld                           -- a statement containing `yield`
+  | unlock                        -- `instance.unlock()`
+  | other                         -- any other simple statement
+  | ret                           -- `return` / `raise`: leaves through the enclosing `finally` blocks
+  | tryB | exceptB (catchesExit : Bool) | finallyB | endTry
+  | condB (isLoop : Bool) | endCond (isLoop : Bool)     -- `if` / `for` / `while` bodies
+deriving DecidableEq, Repr
+
+/-- where a position sits in each enclosing block, innermost first; `fin p`: in a `finally` block entered while
+unwinding (`p = some catchable`) or normally (`none`); `skip`: past the part of a `try` that runs, skipping its
+remaining `except` clauses. -/
+inductive Sect where
+  | body | handler | fin (pending : Option Bool) | skip | cond (isLoop : Bool) (entered : Bool)
+deriving DecidableEq, Repr
+
+/-- the enclosing blocks of the position after the prefix `toks` (scanning from the start of the body). -/
+def context : List Tok → List Sect → List Sect
+  | [], ctx => ctx
+  | t :: rest, ctx =>
+      match t, ctx with
+      | .tryB, _ => context rest (.body :: ctx)
+      | .exceptB _, _ :: up => context rest (.handler :: up)
+      | .finallyB, _ :: up => context rest (.fin none :: up)
+      | .endTry, _ :: up => context rest up
+      | .condB l, _ => context rest (.cond l false :: ctx)
+      | .endCond _, _ :: up => context rest up
+      | _, _ => context rest ctx
+
+structure Outcome where
+  unlocked : Bool      -- `unlock()` was executed for certain
+  stuck : Bool         -- a `yield` was (possibly) reached while closing: RuntimeError, frame left suspended
+deriving DecidableEq, Repr
+
+/-- `close()`: `unw (some c)` = an exception is propagating (`c`: it is the catchable `GeneratorExit`; `false`
+for `return`/`raise`), `unw none`... is not used; `run` = executing.  `depth`: nesting of blocks that are skipped
+wholesale; `unc`: number of conditional blocks entered while executing (what is inside them may or may not run). -/
+inductive Mode where
+  | unw (catchable : Bool) | run
+deriving DecidableEq, Repr
+
+def closeFrom : List Tok → List Sect → Mode → Nat → Nat → Bool → Outcome
+  | [], _, _, _, _, u => ⟨u, false⟩
+  | t :: rest, ctx, .unw c, depth, unc, u =>
+      if depth > 0 then
+        match t with
+        | .tryB | .condB _ => closeFrom rest ctx (.unw c) (depth + 1) unc u
+        | .endTry | .endCond _ => closeFrom rest ctx (.unw c) (depth - 1) unc u
+        | _ => closeFrom rest ctx (.unw c) depth unc u
+      else
+        match t, ctx with
+        | .tryB, _ | .condB _, _ => closeFrom rest ctx (.unw c) 1 unc u
+        | .exceptB ce, .body :: up =>
+            if c && ce then closeFrom rest (.handler :: up) .run 0 unc u
+            else closeFrom rest ctx (.unw c) 0 unc u
+        | .finallyB, .body :: up | .finallyB, .handler :: up | .finallyB, .skip :: up =>
+            closeFrom rest (.fin (some c) :: up) .run 0 unc u
+        | .endTry, _ :: up => closeFrom rest up (.unw c) 0 unc u
+        | .endCond _, .cond _ e :: up => closeFrom rest up (.unw c) 0 (if e then unc - 1 else unc) u
+        | _, _ => closeFrom rest ctx (.unw c) 0 unc u
+  | t :: rest, ctx, .run, depth, unc, u =>
+      match ctx with
+      | .skip :: up =>
+          if depth > 0 then
+            match t with
+            | .tryB | .condB _ => closeFrom rest ctx .run (depth + 1) unc u
+            | .endTry | .endCond _ => closeFrom rest ctx .run (depth - 1) unc u
+            | _ => closeFrom rest ctx .run depth unc u
+          else
+            match t with
+            | .tryB | .condB _ => closeFrom rest ctx .run 1 unc u
+            | .finallyB => closeFrom rest (.fin none :: up) .run 0 unc u
+            | .endTry => closeFrom rest up .run 0 unc u
+            | _ => closeFrom rest ctx .run 0 unc u
+      | _ =>
+          match t, ctx with
+          | .yld, _ => ⟨u, true⟩
+          | .unlock, _ => closeFrom rest ctx .run 0 unc (u || unc == 0)
+          | .other, _ => closeFrom rest ctx .run 0 unc u
+          | .ret, _ => closeFrom rest ctx (.unw false) 0 unc u
+          | .tryB, _ => closeFrom rest (.body :: ctx) .run 0 unc u
+          | .condB l, _ => closeFrom rest (.cond l true :: ctx) .run 0 (unc + 1) u
+          | .exceptB _, _ :: up => closeFrom rest (.skip :: up) .run 0 unc u
+          | .finallyB, _ :: up => closeFrom rest (.fin none :: up) .run 0 unc u
+          | .endTry, .fin (some c) :: up => closeFrom rest up (.unw c) 0 unc u
+          | .endTry, _ :: up => closeFrom rest up .run 0 unc u
+          | .endCond _, .cond l e :: up =>
+              if e then closeFrom rest up .run 0 (unc - 1) u
+              else if l then ⟨u, true⟩          -- the end of a loop that encloses the yield: it may iterate again
+              else closeFrom rest up .run 0 unc u
+          | _, _ => closeFrom rest ctx .run 0 unc u
+
+/-- `close()` of the generator suspended at token `k` (which must be a `yld`). -/
+def closeAt (prog : List Tok) (k : Nat) : Outcome :=
+  closeFrom (prog.drop (k + 1)) (context (prog.take k) []) (.unw true) 0 0 false
+
+def yieldIdx (prog : List Tok) : List Nat := (List.range prog.length).filter (fun k => prog[k]? == some .yld)
+
+/-- the shape fact: at whatever `yield` the generator is suspended, closing it executes `unlock()` and reaches no
+further `yield`. -/
+def closeSafe (prog : List Tok) : Bool :=
+  (yieldIdx prog).all (fun k => (closeAt prog k).unlocked && !(closeAt prog k).stuck)
+
+/-- the coroutine: suspended at a yield, closed, or left suspended by a failed `close()`. -/
+inductive GState where
+  | suspended (k : Nat) | closed | stuckAt (k : Nat)
+deriving DecidableEq, Repr
+
+/-- `close()` as a transition of the coroutine: new state and whether the lock is released by it. -/
+def genClose (prog : List Tok) : GState → GState × Bool
+  | .suspended k =>
+      let o := closeAt prog k
+      (if o.stuck then .stuckAt k else .closed, o.unlocked)
+  | g => (g, false)
+
+end Bptk.C18.Gen
